@@ -168,6 +168,20 @@ def exhaustive_cases():
         for a, b in itertools.product(ARGS["Real"], ARGS["Int"]):
             if op != "mod":
                 yield {"term": to_json(("bin", op, a, b)), "type": "Real", "fn": op}
+                yield {"term": to_json(("bin", op, b, a)), "type": "Real", "fn": op}
+    for a in ARGS["DateTime"]:
+        for d in ARGS["Duration"]:
+            yield {"term": to_json(("bin", "add", a, d)), "type": "DateTime", "fn": "add"}
+            yield {"term": to_json(("bin", "sub", a, d)), "type": "DateTime", "fn": "sub"}
+        for b in ARGS["DateTime"]:
+            yield {"term": to_json(("bin", "sub", a, b)), "type": "Duration", "fn": "sub"}
+    for a in ARGS["Date"]:
+        for b in ARGS["Date"]:
+            yield {"term": to_json(("bin", "sub", a, b)), "type": "Duration", "fn": "sub"}
+    for d in ARGS["Duration"]:
+        for i in ARGS["Int"]:
+            yield {"term": to_json(("bin", "mul", i, d)), "type": "Duration", "fn": "mul"}
+            yield {"term": to_json(("bin", "mul", d, i)), "type": "Duration", "fn": "mul"}
     for a in B:
         yield {"term": to_json(("un", "not", a)), "type": "Bool", "fn": "not"}
     for a in ARGS["Int"]:
